@@ -817,6 +817,20 @@ func (vm *vm) restoreStacks(iterLen, refLen uint32) (ex *Exception) {
 	return
 }
 
+// restoreStacksUnwinding is restoreStacks for handleThrow: a Go panic that is not a catchable exception (an interrupt,
+// a stack overflow, a foreign panic) raised while an iterator is being closed is returned instead of being
+// left to propagate from the middle of the unwinding (which kept the remaining try frames and iterators on their
+// stacks after the run had ended).
+func (vm *vm) restoreStacksUnwinding(iterLen, refLen uint32) (abort interface{}) {
+	defer func() {
+		if abort = recover(); abort != nil {
+			vm.dropStacks(iterLen, refLen)
+		}
+	}()
+	_ = vm.restoreStacks(iterLen, refLen)
+	return
+}
+
 // dropStacks truncates the iterator and reference stacks without closing the iterators. Used when unwinding
 // because of an uncatchable condition (interrupt, stack overflow), which must not run any script code.
 func (vm *vm) dropStacks(iterLen, refLen uint32) {
@@ -851,9 +865,19 @@ func (vm *vm) handleThrow(arg interface{}) *Exception {
 		vm.stash = tf.stash
 		vm.privEnv = tf.privEnv
 		if ex != nil {
-			_ = vm.restoreStacks(tf.iterLen, tf.refLen)
+			abort := vm.restoreStacksUnwinding(tf.iterLen, tf.refLen)
 			// closing the iterators pushes (and pops) try frames: the stack may have been reallocated
 			tf = &vm.tryStack[len(vm.tryStack)-1]
+			if abort != nil {
+				// return() of an iterator was interrupted (or overflowed the stack): the unwinding goes on
+				// for that condition, which no try statement handles
+				arg, ex = abort, nil
+				if tf.catchPos != tryPanicMarker {
+					tf.exception = nil
+					vm.popTryFrame()
+					continue
+				}
+			}
 		} else {
 			vm.dropStacks(tf.iterLen, tf.refLen)
 		}
